@@ -684,7 +684,10 @@ def type_sdl(st, members=None, interfaces=None, union_members=None, extend=False
 def directive_sdl(d):
     args = ""
     if d.args:
-        args = "(%s)" % ", ".join(input_value_sdl(a) for a in d.args)
+        if any(a.description is not None for a in d.args):
+            args = "(\n%s\n)" % "\n".join(desc_text(a.description, "  ") + "  " + input_value_sdl(a) for a in d.args)
+        else:
+            args = "(%s)" % ", ".join(input_value_sdl(a) for a in d.args)
     return desc_text(d.description) + "directive @%s%s on %s" % (d.name, args, " | ".join(d.locations))
 
 
@@ -698,14 +701,17 @@ def needs_schema_def(s):
             or (s.subscription and s.subscription != "Subscription"))
 
 
-def to_sdl(s, rng=None, split_extensions=False, shuffle=False, force_schema_def=False):
+def to_sdl(s, rng=None, split_extensions=False, shuffle=False, force_schema_def=False, split_kinds=None):
     """Returns (text, info). With split_extensions, members / interfaces / union members / root
     operations are randomly distributed over the base definition and `extend` blocks
     (base definitions first in document order unless shuffled: extensions may precede)."""
     blocks = []
     n_ext = 0
+    split_types = []
     for st in s.types.values():
-        if split_extensions and rng is not None and st.kind != "scalar" and rng.random() < 0.6:
+        if split_extensions and rng is not None and st.kind != "scalar" and rng.random() < 0.6 \
+                and (split_kinds is None or st.kind in split_kinds):
+            split_types.append(st.name)
             mem = type_members_sdl(st)
             if st.kind == "union":
                 um = list(st.members)
@@ -760,4 +766,4 @@ def to_sdl(s, rng=None, split_extensions=False, shuffle=False, force_schema_def=
             cursor[tgt] += 1
         blocks = out
     text = "\n\n".join(b[2] for b in blocks) + "\n"
-    return text, {"extensions": n_ext, "blocks": len(blocks)}
+    return text, {"extensions": n_ext, "blocks": len(blocks), "split_types": split_types}
